@@ -517,6 +517,84 @@ fn dump_prefix(v: u64, c: u64, t: u64, l: u8) -> Vec<u64> {
     o
 }
 
+
+pub const YAMUX_BOUND: u64 = 4 << 20;
+fn opaque(peak: u64, bound: u64) -> u64 {
+    if peak <= bound {
+        bound
+    } else {
+        peak
+    }
+}
+
+fn yamux_credit_overflows(l: &[u8]) -> bool {
+    u32::from_be_bytes([l[0], l[1], l[2], l[3]]).checked_add(262144).is_none()
+}
+fn yamux_first_frame_trigger(b: &[u8]) -> bool {
+    b.len() >= 12 && b[0] == 0 && b[1] == 1 && b[3] & 1 == 1 && b[3] & 8 == 0 && b[7] & 1 == 1 && yamux_credit_overflows(&b[8..12])
+}
+/// transcription of coq/C19/Model.v yamux_syn_credit_overflow
+fn yamux_syn_credit_overflow(mut b: &[u8]) -> bool {
+    while b.len() >= 12 {
+        let len = u32::from_be_bytes([b[8], b[9], b[10], b[11]]) as usize;
+        if b[1] == 1 && b[3] & 1 == 1 && yamux_credit_overflows(&b[8..12]) {
+            return true;
+        }
+        let rest = &b[12..];
+        if b[1] == 0 {
+            if rest.len() < len {
+                return false;
+            }
+            b = &rest[len..];
+        } else {
+            b = rest;
+        }
+    }
+    false
+}
+
+/// futures-io carrier for the yamux connection: the bytes, then end of stream; writes are dropped
+struct FCarrier {
+    data: Vec<u8>,
+    pos: usize,
+}
+impl futures::io::AsyncRead for FCarrier {
+    fn poll_read(mut self: Pin<&mut Self>, _cx: &mut Context<'_>, buf: &mut [u8]) -> Poll<std::io::Result<usize>> {
+        let n = buf.len().min(self.data.len() - self.pos);
+        let p = self.pos;
+        buf[..n].copy_from_slice(&self.data[p..p + n]);
+        self.pos += n;
+        Poll::Ready(Ok(n))
+    }
+}
+impl futures::io::AsyncWrite for FCarrier {
+    fn poll_write(self: Pin<&mut Self>, _cx: &mut Context<'_>, buf: &[u8]) -> Poll<std::io::Result<usize>> {
+        Poll::Ready(Ok(buf.len()))
+    }
+    fn poll_flush(self: Pin<&mut Self>, _cx: &mut Context<'_>) -> Poll<std::io::Result<()>> {
+        Poll::Ready(Ok(()))
+    }
+    fn poll_close(self: Pin<&mut Self>, _cx: &mut Context<'_>) -> Poll<std::io::Result<()>> {
+        Poll::Ready(Ok(()))
+    }
+}
+/// the yamux connection litep2p runs over every TCP/WebSocket connection (the `yamux` crate behind
+/// `litep2p::yamux`), server side, fed the bytes: number of inbound streams it opened
+fn yamux_feed(b: &[u8]) -> usize {
+    use litep2p::yamux::{Config, Connection, Mode};
+    let mut conn = Connection::new(FCarrier { data: b.to_vec(), pos: 0 }, Config::default(), Mode::Server);
+    let waker = futures::task::noop_waker();
+    let mut cx = Context::from_waker(&waker);
+    let mut streams = Vec::new();
+    for _ in 0..4096 {
+        match conn.poll_next_inbound(&mut cx) {
+            Poll::Ready(Some(Ok(s))) => streams.push(s),
+            Poll::Ready(Some(Err(_))) | Poll::Ready(None) | Poll::Pending => break,
+        }
+    }
+    streams.len()
+}
+
 fn hdr(peak: u64, bound: u64, cap: u64, body: Vec<u64>) -> Vec<u64> {
     // C19_SHOW_PEAK=1 (debugging only): print the measured peak even when it is within the bound
     let show = std::env::var_os("C19_SHOW_PEAK").is_some();
@@ -926,6 +1004,28 @@ fn run_inner(p: &[u64]) -> Option<(Vec<u64>, Vec<u64>)> {
             let mut out = vec![1, if peak <= EMBED_BOUND { EMBED_BOUND } else { peak }, 0];
             out.extend(t);
             Some((case, out))
+        }
+        // kinds 18 (TLS certificate), 19 (WebRTC codec) and 9918 belong to the feature worker
+        // (src/c19/xworker.rs); the driver never sends them here
+        21 => {
+            let b = cur.bytes()?;
+            if !cur.done() {
+                return None;
+            }
+            // inputs containing the trigger of known finding class 1 (yamux SYN credit overflow) are
+            // run for real but only the first-frame case is predicted (see coq/C19/Glue.v)
+            if yamux_first_frame_trigger(&b) {
+                let r = catch_unwind(AssertUnwindSafe(|| yamux_feed(&b)));
+                measure_off();
+                return Some((case, vec![777, r.is_err() as u64]));
+            }
+            if yamux_syn_credit_overflow(&b) {
+                let _ = catch_unwind(AssertUnwindSafe(|| yamux_feed(&b)));
+                measure_off();
+                return Some((case, vec![777, 2]));
+            }
+            let (_, peak) = measure(|| yamux_feed(&b));
+            Some((case, vec![1, opaque(peak, YAMUX_BOUND), 0]))
         }
         20 => run_rt(&mut cur).map(|t| (case, t)),
         _ => None,
